@@ -102,7 +102,10 @@ BUFFERS = ["", "1", "2", "4", "6", "8", "9", "10", "11", "15", "17", "20", "21",
            "1001", "1010", "1100", "1900", "2000", "2100", "10000", "15000", "21000", "100000", "100100", "121000",
            "999000", "1000000", "1000001", "1001000", "2000000", "2000100", "21000000", "100000000", "999000000",
            "1000000000", "1000000001", "2000000000", "7000000001", "7001000000", "53000000000", "999000000000",
-           "1000000000000", "5000000000000", "21000000000000", "1000000000000000", "05", "0"]
+           "1000000000000", "5000000000000", "21000000000000", "1000000000000000", "05", "0",
+           # digit-rich buffers (zero / non-zero patterns inside groups) and buffers beyond 2^53 with non-zero low digits
+           "10512", "20512", "30045", "105000000012", "123456789", "987654321098", "9007199254740993",
+           "90000000000123401", "100000000000123403", "12345678901234567890", "99999999999999999999999"]
 
 
 def states_for(lang, tier="quick"):
